@@ -693,6 +693,9 @@ func x03Has(xs []string, x string) bool {
 }
 
 func x03Concrete(row *x03Row, c *x03Conc, opt string) string {
+	if opt == "Source" {
+		return "the configuration text itself as the argument, like ck-server -c <content>"
+	}
 	if v, ok := x03Options(row, c, "DIR")[opt]; ok {
 		b, _ := json.Marshal(v)
 		return string(b)
